@@ -1,48 +1,172 @@
-"""Concrete counterexample search and replay (DESIGN 6.3).
+"""Concrete probes of the real crate: counterexample search and conformance of trusted specs (DESIGN 6.3, 11).
 
-Verus yields no model.  `search` tries, per failed obligation, the searchers
-registered for its unit (Kani twin on the extracted integer code, clause-directed
-enumeration, scenario replay with the real binaries).  Returns a dict describing the
-failing input, or None (the VIOLATION line then ends `no-failing-input-found`).
+Verus yields no model.  /verif/replay is a small crate that links /repo built with the feature
+`zombiezen_redo_rs_verif` (add-only hooks, see MANIFEST.hooks) and runs real functions on small
+concrete inputs.  A probe evaluates contract clauses on the observed results:
+
+* after a VIOLATION: to attach a failing input to the replay file (`search`);
+* for a known finding that names its failing inputs: to check that exactly those inputs fail (`validate_known`);
+* when Verus cannot decide a unit (construct outside its subset, or a hash-pinned trusted body changed): a clause
+  that fails on a concrete input is a sound violation; clauses that hold on the inputs tried change nothing - the
+  unit stays UNDECIDED (`conformance`).
+
+All of this is bounded exploration in support of the proof, never counted as proved.
 """
 import json
 import os
+import shutil
+import subprocess
 import sys
+import tempfile
 
-SEARCHERS = {}
-
-
-def register(prefix):
-    def deco(fn):
-        SEARCHERS[prefix] = fn
-        return fn
-    return deco
+ROOT = os.path.dirname(os.path.dirname(os.path.abspath(__file__)))
+REPO = os.environ.get('VERIF_REPO', '/repo')
+TARGET = os.path.join(ROOT, 'build', 'replay-target')
+_built = {}
 
 
+def build_replay():
+    """(Re)build the probe binary against the current /repo working tree.  Returns its path or None."""
+    if 'bin' in _built:
+        return _built['bin']
+    try:
+        shutil.copy(os.path.join(REPO, 'Cargo.lock'), os.path.join(ROOT, 'replay', 'Cargo.lock'))
+        env = dict(os.environ, CARGO_NET_OFFLINE='true')
+        p = subprocess.run(['cargo', 'build', '--offline', '--quiet', '--manifest-path', os.path.join(ROOT, 'replay', 'Cargo.toml'),
+                            '--target-dir', TARGET], capture_output=True, text=True, env=env, timeout=900)
+        exe = os.path.join(TARGET, 'debug', 'redo-replay')
+        _built['bin'] = exe if p.returncode == 0 and os.path.exists(exe) else None
+        if p.returncode != 0:
+            _built['err'] = p.stderr[-1500:]
+    except Exception as e:  # a broken probe must never turn into an alarm or hide one
+        _built['bin'] = None
+        _built['err'] = str(e)
+    return _built['bin']
+
+
+def run_probe(name, cwd=None):
+    exe = build_replay()
+    if not exe:
+        return None
+    env = {k: v for k, v in os.environ.items() if not k.startswith('REDO') and k != 'MAKEFLAGS'}
+    try:
+        p = subprocess.run([exe, name], capture_output=True, text=True, timeout=120, cwd=cwd, env=env)
+    except Exception:
+        return None
+    rows = []
+    for l in p.stdout.split('\n'):
+        l = l.strip()
+        if l.startswith('{'):
+            try:
+                rows.append(json.loads(l))
+            except Exception:
+                pass
+    return rows
+
+
+# ---------------------------------------------------------------- tokens: do_force_return_tokens
+def _tokens_exit_failures():
+    """-> {clause label: [failing input, ...]} over every small entry state satisfying the contract's requires"""
+    rows = run_probe('tokens-exit')
+    if rows is None:
+        return None
+    out = {'exit.one_token': [], 'exit.ledger': [], 'exit.cheat_bytes': []}
+    for r in rows:
+        if not (0 <= r['cheats'] <= r['my_tokens'] <= 1):   # requires old(self).state.inv()
+            continue
+        inp = 'top_level=%d my_tokens=%d cheats=%d children=%d' % (r['top_level'], r['my_tokens'], r['cheats'], r['children'])
+        obs = dict(input=inp, observed=dict(ok=r['ok'], my_tokens_after=r['my_tokens_after'], cheats_after=r['cheats_after'],
+                                            token_bytes_written=r['token_bytes'], cheat_bytes_written=r['cheat_bytes']))
+        if not r['ok']:
+            for k in out:
+                out[k].append(dict(obs, clause='returned Err or panicked'))
+            continue
+        if r['top_level'] == 0 and r['my_tokens_after'] + r['cheat_bytes'] != 1:
+            out['exit.one_token'].append(dict(obs, clause='my_tokens_after + cheat_bytes_written == 1'))
+        if r['cheats_after'] != r['cheat_bytes']:
+            out['exit.cheat_bytes'].append(dict(obs, clause='cheats_after == cheat_bytes_written'))
+        if r['my_tokens_after'] + r['token_bytes'] != (r['my_tokens'] - r['cheats']) + r['children']:
+            out['exit.ledger'].append(dict(obs, clause='my_tokens_after + token_bytes_written == real_before + children'))
+    return out
+
+
+# ---------------------------------------------------------------- state.rs: File::deps / zap_deps1 / zap_deps2 / add_dep
+DEPS_EXPECT = {
+    'declared': [['c', 's2'], ['m', 's1']],
+    'after_zap_deps1': [['c', 's2'], ['m', 's1']],      # deps reports every recorded edge, marked for deletion or not
+    'after_redeclare_s1': [['c', 's2'], ['m', 's1']],
+    'after_zap_deps2': [['m', 's1']],                   # edges not re-declared are gone
+}
+
+
+def _deps_failures():
+    d = tempfile.mkdtemp(prefix='redo-verif-deps.', dir='/var/tmp')
+    try:
+        rows = run_probe('deps', cwd=d)
+    finally:
+        shutil.rmtree(d, ignore_errors=True)
+    if rows is None:
+        return None
+    out = []
+    for r in rows:
+        if 'error' in r:
+            out.append(dict(input='deps probe', observed=r['error'], clause='probe completes'))
+            continue
+        exp = DEPS_EXPECT.get(r['step'])
+        if exp is not None and sorted(r['rows']) != sorted(exp):
+            out.append(dict(input='target t: add_dep(Modified s1), add_dep(Created s2), zap_deps1, add_dep(Modified s1), zap_deps2; step=' + r['step'],
+                            observed=r['rows'], expected=exp,
+                            clause='File::deps reports exactly the recorded edges of the target (trusted spec in prelude/state_file_trusted.rs)'))
+    return out
+
+
+# ---------------------------------------------------------------- interface used by run.py
 def search(prop, violations, tier, seed):
-    budget = 20 if tier == 'quick' else 600
+    """attach a concrete failing input to a reported violation, if a probe covers its function"""
     for v in violations:
-        for prefix, fn in SEARCHERS.items():
-            if v['oid'].startswith(prefix):
-                try:
-                    r = fn(prop, v, budget, seed)
-                except Exception as e:  # a broken searcher must never turn into an alarm or hide one
-                    r = None
-                    sys.stderr.write('cex searcher %s failed: %s\n' % (prefix, e))
-                if r:
-                    r['for_obligation'] = v['oid']
-                    return r
+        oid = v['oid']
+        if oid.startswith('tokens/do_force_return_tokens/'):
+            f = _tokens_exit_failures()
+            if f:
+                label = oid.split('/')[-1]
+                hits = f.get(label) or [x for xs in f.values() for x in xs]
+                if hits:
+                    return dict(probe='redo-replay tokens-exit', for_obligation=oid, failing_inputs=hits[:6])
     return None
+
+
+def known_inputs(prop, oid):
+    """failing inputs of a known-finding obligation as observed now (None: no probe for it)"""
+    if oid.startswith('tokens/do_force_return_tokens/'):
+        f = _tokens_exit_failures()
+        if f is None:
+            return None
+        return [x['input'] for x in f.get(oid.split('/')[-1], [])]
+    return None
+
+
+def conformance(prop, unit_names, pins_changed, labels_props):
+    """concrete violations for units Verus could not decide.  -> list of failure dicts like run.analyse's"""
+    out = []
+    if 'tokens' in unit_names:
+        f = _tokens_exit_failures()
+        for label, hits in (f or {}).items():
+            props = labels_props.get(('tokens', label), ['C08'])
+            if hits and prop in props:
+                out.append(dict(oid='tokens/do_force_return_tokens/%s' % label, msg='contract clause fails on the real code for a concrete input (probe tokens-exit)',
+                                where=REPO + '/src/jobserver.rs:do_force_return_tokens', site=None, text=hits[0]['clause'],
+                                rendered=json.dumps(hits[:6], indent=1), inputs=[h['input'] for h in hits], fn='do_force_return_tokens', label=label, props=props))
+    if any(p.endswith('::deps') or p.endswith('::zap_deps1') or p.endswith('::zap_deps2') or p.endswith('::add_dep') for p in pins_changed):
+        f = _deps_failures()
+        if f:
+            out.append(dict(oid='trusted/File::deps/deps_reports_every_recorded_edge', msg='trusted specification of a hash-pinned body fails on the real code for a concrete input (probe deps)',
+                            where=REPO + '/src/state.rs:File::deps', site=None, text=f[0]['clause'], rendered=json.dumps(f[:4], indent=1),
+                            inputs=[x['input'] for x in f], fn='deps', label='deps_reports_every_recorded_edge', props=[prop]))
+    return out
 
 
 def replay(prop, path):
     d = json.load(open(path))
-    print(json.dumps(d, indent=1)[:6000])
+    print(json.dumps(d, indent=1)[:8000])
     from .run import check_property
     return check_property(prop, 'quick', 0)
-
-
-try:
-    from . import cex_tokens  # noqa: F401
-except Exception:
-    pass
